@@ -1,6 +1,75 @@
 """Per-property texts of MANIFEST.json (see tools_manifest.py)"""
 
+_SCHED_NOTE = (
+    "Trusted: CrossHair's models of int/bool/list/dict and z3; the deterministic environment of xv/env/sched.py "
+    "(FIFO loop, helper-thread completion = one atomic external event, model OS for processes and inter-process locks, "
+    "insertion-ordered dependency sets with a symbolic reversal bit). Outside: schedules deviating from FIFO after the "
+    "K-th choice point, statement-level races inside a callback or helper thread, real fcntl/inotify/psutil, more "
+    "jobs/tokens than the shard bounds, several scheduler processes."
+)
+_IDENT_NOTE = (
+    "Trusted: CrossHair's models (symbolic int, str built from code points, struct.pack('!q'), UTF-8 encoding, bytes) and z3; "
+    "sha256 replaced by the concatenated stream (collision-freeness assumed); the reference signature/encoder xv/ref/signature.py "
+    "(validated against golden identifiers of the pinned commit). Outside: graphs larger than the skeletons, strings longer than the "
+    "shard lengths, NaN/-0.0/inf, ints beyond int64."
+)
+
 CHECKS = {
+    "C01": {
+        "text": "Bounded symbolic model checking of the real HashComputer / ConfigInformation.identifiers / seal / __unseal__ / dry-run submit: for 15 graph skeletons (nested, shared, cyclic, lists, dicts, task outputs, pre-tasks) every leaf value is symbolic and z3 decides every branch; the hashed byte stream of every node must equal the encoding of its canonical signature computed by an independent reference model, after an arbitrary (symbolic) history of identifier requests, sealing and unsealing (length 2-3 quick, 3-4 thorough). Concrete complement: golden identifiers of the pinned commit recomputed with the real sha256 in fresh processes under 3 PYTHONHASHSEED values.",
+        "design_ref": "DESIGN.md §3 C01",
+        "note": _IDENT_NOTE + " History conditions use concrete leaves (selectors only); PYTHONHASHSEED independence is sampled, not solved.",
+    },
+    "C02": {
+        "text": "Metamorphic symbolic check on the real code: the same graph is built twice from the same symbolic leaves, one signature-neutral edit (explicit default, explicit None, Meta value, meta-flagged sub-configuration as value / list member / dict value and its content, tag, token dependency, other sealing context, other workspace / launcher at dry-run submit, class extended with defaulted / optional / Meta / generated parameters) is applied at a symbolic node; all hashed streams must coincide. CONFIRMED = for all leaf values and all nodes of the skeleton.",
+        "design_ref": "DESIGN.md §3 C02",
+        "note": _IDENT_NOTE,
+    },
+    "C03": {
+        "text": "Symbolic injectivity check of the real encoder: for 400+ (quick) pairs of graph variants one structural edit apart (string length splits, list re-splitting, key renaming, element moved between sibling containers, parameter / type id / constant / enum changed, producing task, pre-task set, init-task order), with independent symbolic leaves on both sides, z3 shows that equal concatenated hashed streams imply equal canonical signatures. Two negative controls outside the property's domain (control characters; three-level dicts) must be refuted and reproduce with the real sha256, which shows the harness can see collisions.",
+        "design_ref": "DESIGN.md §3 C03",
+        "note": _IDENT_NOTE + " Nested configurations contribute variable-length streams on the stub where the real code contributes 32-byte digests: conservative. Quick: all but the first int of each side are one byte wide (the solver needs seconds per path to prove '!q' injective); dedicated full-range conditions are kept.",
+    },
+    "C04": {
+        "text": "Bounded symbolic model checking of the real scheduler (aio_submit / aio_start / dependencychanged / JobDependency / JobLock) on a deterministic event loop: exit codes are unbounded symbolic ints, the delivery order of process exits, helper-thread completions, submissions and token notifications is a vector of symbolic choices (4 choice points quick, 7 thorough, then FIFO), DAG shape per shard (<=3 jobs quick, <=4 thorough); at every launch all transitive dependencies must have exited with 0. Plus dependency collection (updatedependencies) for 14 embedding positions of an upstream task (symbolic selector).",
+        "design_ref": "DESIGN.md §3 C04",
+        "note": _SCHED_NOTE,
+    },
+    "C06": {
+        "text": "Same engine as C04 with the strongest oracle: at quiescence every job future is done, its result equals job.state, state == DONE iff exit code == 0 (no failed ancestor), no different state is assigned after the first finished one (every assignment is monitored), experiment.wait() is blocked until then and returns / raises exactly then, unfinishedJobs == 0, leaving the experiment does not hang; in-process counter token with symbolic total and requests; re-submission of a failed job. Found and drove the repair of three scheduler defects (see known_findings.json).",
+        "design_ref": "DESIGN.md §3 C06",
+        "note": _SCHED_NOTE,
+    },
+    "C07": {
+        "text": "Same engine: symbolic exit codes make every subset of failing jobs a solver matter, submissions are schedule events (failure before / while / after the dependent is submitted). Oracle: jobs with a failed ancestor are never launched and end ERROR with failure_status DEPENDENCY; the others are launched exactly once and end per their own code; leaving the experiment raises FailedExperiment iff some job failed.",
+        "design_ref": "DESIGN.md §3 C07",
+        "note": _SCHED_NOTE,
+    },
+    "C08": {
+        "text": "Same engine with a capacity monitor evaluated after every delivered event: the requests of jobs whose process is running sum to <= total. In-process token: total and requests symbolic unbounded ints (1<=r<=total). File token (one CounterToken instance on a scratch directory, real acquire/release/_update/TokenFile code): counts enumerated per shard (they are written to files), exit codes and schedule symbolic.",
+        "design_ref": "DESIGN.md §3 C08",
+        "note": _SCHED_NOTE + " The multi-process clause (several schedulers sharing the token directory, stale availability, watchdog events) is NOT claimed in this round.",
+    },
+    "C09": {
+        "text": "Same runs as C08 with the quiescence oracle: token.available == total, no *.token file left, every job whose request fits has reached a final state, no undeliverable event remains; aborted starts (LockError) are reachable through token contention.",
+        "design_ref": "DESIGN.md §3 C09",
+        "note": _SCHED_NOTE + " The fault clause (scheduler killed while its jobs hold tokens, reclaim through TokenFile.watch by another instance) is NOT claimed in this round.",
+    },
+    "C10": {
+        "text": "Symbolic crash-point exploration of the real TaskRunner (run.py is re-instrumented from the current source at each run with a tick before every statement): the tick of death, the kind of death (none/KILL/TERM/INT) and the body outcome are symbolic; one life is executed from every job-directory pre-state satisfying the invariant (.done => body completed earlier; no lock held) - an inductive step that covers any number of relaunches. Oracle: .done only if the body completed, lock dies with the process, body executed iff no .done at start, TERM/INT during the body leaves .failed and no .done, a job ending on its own leaves no .pid.",
+        "design_ref": "DESIGN.md §3 C10",
+        "note": "Trusted: the OS/interpreter model (signals delivered at statement boundaries, atexit at interpreter exit, locks released at process end), CrossHair + z3. Outside: death inside one statement, fork children, real signals/fcntl, a process that ends before the scheduler wrote its pid file.",
+    },
+    "C12": {
+        "text": "Symbolic round trip through the real serialisation code (state_dict/from_state_dict and the params-file object list/fromParameters): for 15 skeletons with symbolic leaves and a meta flag (None/True/False) on a symbolic node, the reloaded graph must be isomorphic (classes, every value incl. ignored ones, sharing, meta flags, pre-tasks, task links), identifiers recomputed on it must equal the originals, the instance graph must carry the same values, and the produced structure must be JSON-native. save()/load() through real files and json text: concrete complement.",
+        "design_ref": "DESIGN.md §3 C12",
+        "note": _IDENT_NOTE + " The JSON text layer is trusted (C accelerator realises symbolic values). One open known finding (task whose output is one of its own parameters) is excluded from the identifier clause and reported as KNOWN-FINDING.",
+    },
+    "C14": {
+        "text": "Symbolic mutation attempts on sealed graphs: after seal() / instance() / dry-run submit of 16 skeletons, a symbolic (kind, node, value) mutation attempt - assign int / Meta / None / container parameter, set_meta, add_pretasks - on any node must raise and leave values, meta flag and pre-tasks unchanged; every node must be sealed; identifiers (and the job path, concretely) before == after, with identifier requests interleaved.",
+        "design_ref": "DESIGN.md §3 C14",
+        "note": _IDENT_NOTE + " In-place mutation of a list held by a sealed parameter bypasses set(): outside (the property speaks of assignments).",
+    },
     "C18": {
         "text": "Bounded symbolic model checking of the implementation: HostSimpleRequirement.match/_add/__and__/__mul__, RequirementUnion.match, the cpu/cuda_gpu/duration constructors and LauncherRegistry.find are executed by CrossHair with every size, core count, duration and priority an unbounded symbolic int; z3 decides every branch, so a confirmed condition holds for all such values for the enumerated numbers of GPUs (<=3 quick, <=4 thorough), &-terms and |-alternatives. The text/programmatic clause parses concrete texts (template x number menu) and compares field-wise and on a symbolic host.",
         "design_ref": "DESIGN.md §3 C18",
